@@ -47,6 +47,8 @@
 //! - [Big(ger) Sets: Making CRDT Sets Scale in Riak by Russell Brown](https://www.youtube.com/watch?v=f20882ZSdkU)
 //! - ["CRDTs Illustrated" by Arnout Engelen](https://www.youtube.com/watch?v=9xFfOhasiOE)
 
+#![allow(unexpected_cfgs)]
+
 mod orswot;
 mod timestamp;
 
@@ -62,3 +64,72 @@ pub use timestamp::{
     DATACAKE_EPOCH,
     TIMESTAMP_MAX,
 };
+
+#[cfg(datacake_verif)]
+pub mod verif {
+    //! Verification-only seams (compiled only with `--cfg datacake_verif`).
+    //!
+    //! Everything here is thread-local and inert until a harness installs something,
+    //! so even with the guard on, behaviour is unchanged by default.
+    use std::cell::RefCell;
+    use std::collections::BTreeMap;
+    use std::time::Duration;
+
+    type WallFn = Box<dyn Fn(u8) -> Duration>;
+    type JitterFn = Box<dyn Fn(&'static str) -> Option<Duration>>;
+
+    thread_local! {
+        static WALL: RefCell<Option<WallFn>> = RefCell::new(None);
+        static RNG: RefCell<Option<u64>> = RefCell::new(None);
+        static PROBES: RefCell<BTreeMap<&'static str, u64>> = RefCell::new(BTreeMap::new());
+        static JITTER: RefCell<Option<JitterFn>> = RefCell::new(None);
+    }
+
+    /// Installs (or clears) the injected unix wall clock for this thread.
+    pub fn set_wall_clock(f: Option<WallFn>) {
+        WALL.with(|w| *w.borrow_mut() = f);
+    }
+
+    /// The injected unix wall clock reading for `node`, if a clock is installed.
+    pub fn unix_now(node: u8) -> Option<Duration> {
+        WALL.with(|w| w.borrow().as_ref().map(|f| f(node)))
+    }
+
+    /// Seeds (or clears) the hook PRNG for this thread.
+    pub fn seed_rng(seed: Option<u64>) {
+        RNG.with(|r| *r.borrow_mut() = seed.map(|s| s | 1));
+    }
+
+    /// Next value of the hook PRNG (splitmix64), if seeded.
+    pub fn next_u64() -> Option<u64> {
+        RNG.with(|r| {
+            let mut r = r.borrow_mut();
+            let state = r.as_mut()?;
+            *state = state.wrapping_add(0x9E37_79B9_7F4A_7C15);
+            let mut z = *state;
+            z = (z ^ (z >> 30)).wrapping_mul(0xBF58_476D_1CE4_E5B9);
+            z = (z ^ (z >> 27)).wrapping_mul(0x94D0_49BB_1331_11EB);
+            Some(z ^ (z >> 31))
+        })
+    }
+
+    /// Counts that a branch of interest was reached.
+    pub fn probe(name: &'static str) {
+        PROBES.with(|p| *p.borrow_mut().entry(name).or_insert(0) += 1);
+    }
+
+    /// Takes (and resets) the probe counters.
+    pub fn take_probes() -> BTreeMap<&'static str, u64> {
+        PROBES.with(|p| std::mem::take(&mut *p.borrow_mut()))
+    }
+
+    /// Installs (or clears) the cooperative delay source.
+    pub fn set_jitter(f: Option<JitterFn>) {
+        JITTER.with(|j| *j.borrow_mut() = f);
+    }
+
+    /// The delay a cooperative fault point should take, if any.
+    pub fn jitter_for(site: &'static str) -> Option<Duration> {
+        JITTER.with(|j| j.borrow().as_ref().and_then(|f| f(site)))
+    }
+}
